@@ -363,6 +363,17 @@ class Effects:
                 return got
         return ['?w']
 
+    def _table_cells(self, v, f, arity):
+        """columns of TABLE[...] where TABLE is a module-level dict (or tuple) display of rows of `arity` string constants"""
+        if not (isinstance(v, ast.Subscript) and isinstance(v.value, ast.Name)):
+            return None
+        tab = f.mod.consts.get(v.value.id)
+        rows = list(tab.values) if isinstance(tab, ast.Dict) else list(tab.elts) if isinstance(tab, (ast.Tuple, ast.List)) else None
+        if not rows or not all(isinstance(r, (ast.Tuple, ast.List)) and len(r.elts) == arity and
+                               all(isinstance(c, ast.Constant) and isinstance(c.value, str) for c in r.elts) for r in rows):
+            return None
+        return [[r.elts[i].value for r in rows] for i in range(arity)]
+
     def _mode_fn(self, call, fm):
         import itertools
         from .pyeval import Interp, Unsupported
@@ -510,6 +521,14 @@ class Effects:
                     env['#modes:' + t.id] = [v.body.value, v.orelse.value]
                 else:
                     env.pop('#modes:' + t.id, None)
+            elif isinstance(t, (ast.Tuple, ast.List)) and self._table_cells(v, f, len(t.elts)) is not None:
+                # a, b = TABLE[key] over a module-level table of rows of constants: each name takes one of its column's values
+                cols = self._table_cells(v, f, len(t.elts))
+                for a, col in zip(t.elts, cols):
+                    if isinstance(a, ast.Name):
+                        forget_items(a.id, env)
+                        env[a.id] = {'const:%s' % c for c in col}
+                        env['#modes:' + a.id] = sorted(set(col))
             elif isinstance(t, (ast.Tuple, ast.List)):
                 if isinstance(v, (ast.Tuple, ast.List)) and len(v.elts) == len(t.elts):
                     for a, b in zip(t.elts, v.elts):
